@@ -316,7 +316,7 @@ func flowLine(name, kind, url string, s shape) string {
 	return fmt.Sprintf("flow %s %s %s m=%s h=%s q=%s s=%s", name, kind, proto.Enc(url), s.m, s.h, s.q, s.s)
 }
 
-func genFilterCase(r *prng.R, id string, allOrders bool, benignBias bool) proto.Case {
+func genFilterCase(r *prng.R, id string, allOrders bool, benignBias bool, withEngine bool) proto.Case {
 	n := r.Range(1, 4)
 	if r.Chance(5) {
 		n = 5
@@ -377,6 +377,13 @@ func genFilterCase(r *prng.R, id string, allOrders bool, benignBias bool) proto.
 	for _, p := range orders {
 		ops = append(ops, "load perm="+permStr(p))
 		ops = append(ops, reqs...)
+	}
+	if withEngine {
+		for _, q := range reqs {
+			if strings.HasPrefix(q, "req ") {
+				ops = append(ops, "eng "+q)
+			}
+		}
 	}
 	return proto.Case{ID: id, Ops: ops}
 }
@@ -522,7 +529,7 @@ func gen(r *prng.R, f proto.Flags, emit func(proto.Case)) {
 		case k%4 == 0:
 			emit(genTrieCase(rr, fmt.Sprintf("t%d", k)))
 		default:
-			emit(genFilterCase(rr, fmt.Sprintf("p%d", k), rr.Chance(40), k%4 == 1))
+			emit(genFilterCase(rr, fmt.Sprintf("p%d", k), rr.Chance(40), k%4 == 1, k%16 == 2 || k%16 == 5))
 		}
 	}
 	if f.Tier == "thorough" {
